@@ -1,4 +1,5 @@
 import P2.Model.Lang.Sem
+import P2.Proofs.GenericOpt
 /-! # C02 — constant folding is unobservable (value instantiation: facts about the operator table)
 
 The generic rewriting theorem (`optimize_sound` under `Laws`, for every operator table) lives in
@@ -57,5 +58,56 @@ theorem mul_err_of_nonnumeric (ap : Apply) (k : Nat) (a b : Val)
 int/float border only when the integer sub-product does not wrap: witness of finding
 `regroup-mul-int-wrap-before-float`, on the model's own arithmetic (2 * 2^62 wraps to -2^63). -/
 theorem mul_int_wrap_witness : wrap64 (2 * 4611686018427387904) = -9223372036854775808 := by decide
+
+end P2.C02
+
+/-! ## the value operator table restricted to integers, as an instance of the generic optimizer theorem -/
+namespace P2.C02
+open P2.Generic
+
+/-- `value.New()`'s arithmetic on ints with wrap-around (`+ - *`), `*` flagged commutative as in
+today's table; every other operator spelling is an error in this fragment -/
+def intTable : Table Int where
+  sem := fun o a b =>
+    if o = "*" then some (P2.Lang.wrap64 (a * b))
+    else if o = "+" then some (P2.Lang.wrap64 (a + b))
+    else if o = "-" then some (P2.Lang.wrap64 (a - b))
+    else none
+  pure := fun _ => true
+  comm := fun o => o = "*"
+  usem := fun o a => if o = "-" then some (P2.Lang.wrap64 (-a)) else none
+  fn := fun _ => none
+  fpure := fun _ => false
+  toBool := none
+
+theorem intTable_laws : Laws intTable where
+  left := by
+    intro o ho c1 c2 co hco x
+    have : o = "*" := by simpa [intTable] using ho
+    subst this
+    simp only [intTable, if_true, Option.some.injEq] at hco ⊢
+    subst hco
+    simp only [Option.bind_some, Option.some.injEq]
+    exact mul_regroup_left_int c1 c2 x
+  right := by
+    intro o ho c1 c2 co hco x
+    have : o = "*" := by simpa [intTable] using ho
+    subst this
+    simp only [intTable, if_true, Option.some.injEq] at hco ⊢
+    subst hco
+    simp only [Option.bind_some, Option.some.injEq]
+    exact mul_regroup_right_int c1 c2 x
+
+/-- C02.2 on the integer fragment of the value language: for every expression over `+ - *`, unary
+minus, let and variables, with 64-bit wrap-around, the optimised tree (constant folding and the
+regrouping of `*` chains) evaluates to exactly the same value or error as the original. -/
+theorem int_optimize_sound (e : E Int) (env : Env Int) :
+    eval intTable (optimize intTable e) env = eval intTable e env :=
+  optimize_sound intTable intTable_laws e env
+
+/-- non-vacuity: the optimizer really rewrites `(2 * a) * 3` to `6 * a` here -/
+example : optimize intTable (.op "*" (.op "*" (.const 2) (.var "a")) (.const 3))
+    = .op "*" (.const 6) (.var "a") := by
+  simp [optimize, rule, intTable, P2.Lang.wrap64]
 
 end P2.C02
